@@ -199,74 +199,87 @@ with parseTL2TypeArgument (fuel : nat) (tokens : iter) (o : pos) : t2 unit :=
   end.
 
 (** ** TL2Field := ((tl2fieldName qm?) | ucs) cl TL2TypeRef *)
+(** deferred: if !state.StartProcessing { restTokens = tokens } *)
+Definition fieldRet (tokens : iter) (st : ostate) (rt : iter) : t2 unit :=
+  T_ok st (if sp st then rt else tokens) tt.
+(** result.PR.End = restTokens.front().pos; return *)
+Definition fieldFin (tokens : iter) (st : ostate) (rt : iter) : t2 unit :=
+  fr rt (fun _ => fieldRet tokens st rt).
+
+(** from "if !restTokens.expect(colon)" on *)
+Definition fieldAfterQ (fuel : nat) (o : pos) (tokens : iter) (st : ostate) (rt : iter) : t2 unit :=
+  ex (ty_chr tk_colon) rt (fun b rt =>
+    if negb b then
+      (if sp st then er E2_no_colon rt o (fun e => fieldFin tokens (failWith st e) rt)
+       else fieldFin tokens (mkSt false (oerr st)) rt)
+    else
+      let st := mkSt true (oerr st) in
+      tbind (parseTL2Type fuel rt o) (fun localState rt _ =>
+      er E2_field_type rt o (fun e =>
+        let '(okp, localState) := expectProgress localState e in
+        if negb okp then fieldRet tokens (inherit st localState) rt           (* return without PR.End *)
+        else
+          let commentStart := rt in
+          let '(nl, rt) := skipToNewline rt in
+          if nl && negb (sliceOk n commentStart rt) then T_panic
+          else fieldFin tokens st rt))).
+
+(** the case of the switch: a field name was found at rt *)
+Definition fieldNamed (fuel : nat) (o : pos) (tokens : iter) (rt : iter) : t2 unit :=
+  sk rt (fun rt =>
+  pop rt (fun nameToken rt =>
+    let isIgnored := Z.eqb (t_type nameToken) (ty_chr tk_underscore) || Z.eqb (t_type nameToken) T_tl2depName in
+    fr rt (fun _ =>
+    ex (ty_chr tk_questionMark) rt (fun b rt =>
+      if b then
+        (if isIgnored then er E2_ignored_optional rt o (fun e => fieldFin tokens (failWith (mkSt false None) e) rt)
+         else fieldAfterQ fuel o tokens (mkSt true None) rt)
+      else fieldAfterQ fuel o tokens (mkSt false None) rt)))).
+
 Definition parseTL2Field (fuel : nat) (o : pos) (tokens : iter) : t2 unit :=
-  (* deferred: if !state.StartProcessing { restTokens = tokens } *)
-  let ret (st : ostate) (rt : iter) : t2 unit := T_ok st (if sp st then rt else tokens) tt in
-  let fin (st : ostate) (rt : iter) : t2 unit := fr rt (fun _ => ret st rt) in    (* result.PR.End = restTokens.front().pos *)
   sk tokens (fun rt =>
   if negb (commentBeforeOk n tokens rt) then T_panic
   else
-    ck2 T_lcIdent (ty_chr tk_underscore) rt (fun b rt =>
-    let isName (k : bool -> iter -> t2 unit) : t2 unit :=
-      if b then k true rt else ck2 T_ucIdent T_tl2depName rt k in
-    isName (fun b rt =>
-      if negb b then fin (mkSt false None) rt
-      else
-        sk rt (fun rt =>
-        pop rt (fun nameToken rt =>
-          let isIgnored := Z.eqb (t_type nameToken) (ty_chr tk_underscore) || Z.eqb (t_type nameToken) T_tl2depName in
-          fr rt (fun _ =>
-          let afterQ (st : ostate) (rt : iter) : t2 unit :=
-            ex (ty_chr tk_colon) rt (fun b rt =>
-              if negb b then
-                (if sp st then er E2_no_colon rt o (fun e => fin (failWith st e) rt)
-                 else fin (mkSt false (oerr st)) rt)
-              else
-                let st := mkSt true (oerr st) in
-                tbind (parseTL2Type fuel rt o) (fun localState rt _ =>
-                er E2_field_type rt o (fun e =>
-                  let '(okp, localState) := expectProgress localState e in
-                  if negb okp then ret (inherit st localState) rt           (* return without PR.End *)
-                  else
-                    let commentStart := rt in
-                    let '(nl, rt) := skipToNewline rt in
-                    if nl && negb (sliceOk n commentStart rt) then T_panic
-                    else fin st rt))) in
-          ex (ty_chr tk_questionMark) rt (fun b rt =>
-            if b then
-              (if isIgnored then er E2_ignored_optional rt o (fun e => fin (failWith (mkSt false None) e) rt)
-               else afterQ (mkSt true None) rt)
-            else afterQ (mkSt false None) rt)))))))
-.
+    ck T_lcIdent rt (fun b rt =>
+    if b then fieldNamed fuel o tokens rt else
+    ck (ty_chr tk_underscore) rt (fun b rt =>
+    if b then fieldNamed fuel o tokens rt else
+    ck T_ucIdent rt (fun b rt =>
+    if b then fieldNamed fuel o tokens rt else
+    ck T_tl2depName rt (fun b rt =>
+    if b then fieldNamed fuel o tokens rt else fieldFin tokens (mkSt false None) rt))))).
 
 (** ** TL2UnionConstructor := name (TL2TypeRef | TL2Field* ) *)
+(** a constructor name was found at rt *)
+Definition ctorNamed (fuel : nat) (o : pos) (rt : iter) : t2 unit :=
+  let st := mkSt true None in
+  sk rt (fun rt =>
+  pop rt (fun _ rt =>
+  fr rt (fun _ =>
+  ck2 (ty_chr tk_semiColon) (ty_chr tk_verticalBar) rt (fun b _ =>       (* on a copy of restTokens *)
+    if b then fr rt (fun _ => T_ok st rt tt)
+    else
+      let saved := rt in
+      tbind (zeroOrMore fuel (parseTL2Field fuel o) false rt) (fun fieldsState rt _ =>
+        let st := inherit st fieldsState in
+        if sp fieldsState then fr rt (fun _ => T_ok st rt tt)
+        else
+          tbind (parseTL2Type fuel rt o) (fun aliasState rt _ =>
+            let st := inherit st aliasState in
+            if isOmitted aliasState then
+              ck2 (ty_chr tk_colon) (ty_chr tk_questionMark) rt (fun b rt =>
+                if b then er E2_colon_after_constructor rt o (fun e => T_ok (failWith st e) rt tt)
+                else fr saved (fun _ => T_ok st saved tt))
+            else fr rt (fun _ => T_ok st rt tt))))))).
+
 Definition parseTL2UnionConstructor (fuel : nat) (tokens : iter) (o : pos) : t2 unit :=
   sk tokens (fun rt =>
   ck T_ucIdent rt (fun b rt =>
-  let isName (k : bool -> iter -> t2 unit) : t2 unit :=
-    if b then k true rt else ck2 T_lcIdent T_tl2typeSign rt k in
-  isName (fun b rt =>
-    if negb b then fr rt (fun _ => T_ok (mkSt false None) rt tt)
-    else
-      let st := mkSt true None in
-      sk rt (fun rt =>
-      pop rt (fun _ rt =>
-      fr rt (fun _ =>
-      ck2 (ty_chr tk_semiColon) (ty_chr tk_verticalBar) rt (fun b _ =>       (* on a copy of restTokens *)
-        if b then fr rt (fun _ => T_ok st rt tt)
-        else
-          let saved := rt in
-          tbind (zeroOrMore fuel (parseTL2Field fuel o) false rt) (fun fieldsState rt _ =>
-            let st := inherit st fieldsState in
-            if sp fieldsState then fr rt (fun _ => T_ok st rt tt)
-            else
-              tbind (parseTL2Type fuel rt o) (fun aliasState rt _ =>
-                let st := inherit st aliasState in
-                if isOmitted aliasState then
-                  ck2 (ty_chr tk_colon) (ty_chr tk_questionMark) rt (fun b rt =>
-                    if b then er E2_colon_after_constructor rt o (fun e => T_ok (failWith st e) rt tt)
-                    else fr saved (fun _ => T_ok st saved tt))
-                else fr rt (fun _ => T_ok st rt tt)))))))))).
+  if b then ctorNamed fuel o rt else
+  ck T_lcIdent rt (fun b rt =>
+  if b then ctorNamed fuel o rt else
+  ck T_tl2typeSign rt (fun b rt =>
+  if b then ctorNamed fuel o rt else fr rt (fun _ => T_ok (mkSt false None) rt tt))))).
 
 (** ** TL2UnionType; result = len(result.Variants) *)
 Fixpoint unionLoop (fuel : nat) (cfuel : nat) (st : ostate) (rt : iter) (o : pos) (variants : nat) (isMono : bool) : t2 nat :=
@@ -327,27 +340,33 @@ Definition parseTL2StructTypeDefinition (fuel : nat) (tokens : iter) (o : pos) :
         else fr rt (fun _ => ret fieldsState rt)))).
 
 (** ** TL2TypeTemplate := name cl TL2TypeCategory *)
+(** the part after "front := restTokens.front()" *)
+Definition targCategory (o : pos) (st : ostate) (rt : iter) (front_ : token) : t2 unit :=
+  if negb (Z.eqb (t_type front_) T_numberSign || list_eqb (t_val front_) [84; 121; 112; 101]) then
+    er E2_type_category rt o (fun e => T_ok (failWith st e) rt tt)
+  else
+    sk rt (fun rt =>
+    fr rt (fun _ =>
+    pop rt (fun _ rt =>
+    fr rt (fun _ => T_ok st rt tt)))).
+
+(** a template argument name was found at rt *)
+Definition targNamed (o : pos) (rt : iter) : t2 unit :=
+  let st := mkSt true None in
+  fr rt (fun _ =>
+  sk rt (fun rt =>
+  pop rt (fun _ rt =>
+  fr rt (fun _ =>
+  ex (ty_chr tk_colon) rt (fun b rt =>
+    if negb b then er E2_targ_unexpected rt o (fun e => fr rt (fun _ => T_ok (failWith st e) rt tt))
+    else fr rt (fun front_ => targCategory o st rt front_)))))).
+
 Definition parseTL2TypeArgumentDeclaration (tokens : iter) (o : pos) : t2 unit :=
   sk tokens (fun rt =>
-  ck2 T_lcIdent T_ucIdent rt (fun b rt =>
-    if negb b then fr rt (fun _ => T_ok (mkSt false None) rt tt)
-    else
-      let st := mkSt true None in
-      fr rt (fun _ =>
-      sk rt (fun rt =>
-      pop rt (fun _ rt =>
-      fr rt (fun _ =>
-      ex (ty_chr tk_colon) rt (fun b rt =>
-        if negb b then er E2_targ_unexpected rt o (fun e => fr rt (fun _ => T_ok (failWith st e) rt tt))
-        else
-          fr rt (fun front_ =>
-            if negb (Z.eqb (t_type front_) T_numberSign || list_eqb (t_val front_) [84; 121; 112; 101]) then
-              er E2_type_category rt o (fun e => T_ok (failWith st e) rt tt)
-            else
-              sk rt (fun rt =>
-              fr rt (fun _ =>
-              pop rt (fun _ rt =>
-              fr rt (fun _ => T_ok st rt tt)))))))))))).
+  ck T_lcIdent rt (fun b rt =>
+  if b then targNamed o rt else
+  ck T_ucIdent rt (fun b rt =>
+  if b then targNamed o rt else fr rt (fun _ => T_ok (mkSt false None) rt tt)))).
 
 (** ** TL2TypeDeclaration (without the name) *)
 Fixpoint templateArgsLoop (fuel : nat) (st : ostate) (rt : iter) (o : pos) (k : ostate -> iter -> t2 unit) : t2 unit :=
@@ -367,45 +386,51 @@ Fixpoint templateArgsLoop (fuel : nat) (st : ostate) (rt : iter) (o : pos) (k : 
           else k st rt))
   end.
 
-Definition parseTL2TypeDeclarationWithoutName (fuel : nat) (tokens : iter) (o : pos) : t2 unit :=
-  sk tokens (fun rt =>
-  let body (st : ostate) (rt : iter) : t2 unit :=
-    (* = / <=> / neither *)
-    let defn (isAlias : bool) (st : ostate) (rt : iter) : t2 unit :=
-      if isAlias then
-        tbind (parseTL2Type fuel rt o) (fun localState rt _ =>
-        er E2_alias_ref rt o (fun e =>
+(** after "=" / "<=>" *)
+Definition tdDefn (fuel : nat) (o : pos) (isAlias : bool) (st : ostate) (rt : iter) : t2 unit :=
+  if isAlias then
+    tbind (parseTL2Type fuel rt o) (fun localState rt _ =>
+    er E2_alias_ref rt o (fun e =>
+      let '(okp, localState) := expectProgress localState e in
+      if negb okp then T_ok (inherit st localState) rt tt
+      else fr rt (fun _ => T_ok st rt tt)))
+  else
+    tbind (parseTL2StructTypeDefinition fuel rt o) (fun localState rt _ =>
+      fr rt (fun _ => T_ok (inherit st localState) rt tt)).
+
+(** = / <=> / neither (then restTokens = tokens) *)
+Definition tdBody (fuel : nat) (o : pos) (tokens : iter) (st : ostate) (rt : iter) : t2 unit :=
+  ex (ty_chr tk_equalSign) rt (fun b rt =>
+    if b then tdDefn fuel o false (mkSt true (oerr st)) rt
+    else ex T_tl2alias rt (fun b rt =>
+           if b then tdDefn fuel o true (mkSt true (oerr st)) rt
+           else T_ok st tokens tt)).
+
+(** the switch on the bracket after the optional CRC32 *)
+Definition tdGenerics (fuel : nat) (o : pos) (tokens : iter) (st : ostate) (rt : iter) : t2 unit :=
+  ex (ty_chr tk_lAngleBracket) rt (fun b rt =>
+    if b then
+      let st := mkSt true (oerr st) in
+      tbind (parseTL2TypeArgumentDeclaration rt o) (fun localState rt _ =>
+        let st := inherit st localState in
+        er E2_targ_decl rt o (fun e =>
           let '(okp, localState) := expectProgress localState e in
           if negb okp then T_ok (inherit st localState) rt tt
-          else fr rt (fun _ => T_ok st rt tt)))
-      else
-        tbind (parseTL2StructTypeDefinition fuel rt o) (fun localState rt _ =>
-          fr rt (fun _ => T_ok (inherit st localState) rt tt)) in
-    ex (ty_chr tk_equalSign) rt (fun b rt =>
-      if b then defn false (mkSt true (oerr st)) rt
-      else ex T_tl2alias rt (fun b rt =>
-             if b then defn true (mkSt true (oerr st)) rt
-             else T_ok st tokens tt)) in
-  let generics (st : ostate) (rt : iter) : t2 unit :=
-    ex (ty_chr tk_lAngleBracket) rt (fun b rt =>
-      if b then
-        let st := mkSt true (oerr st) in
-        tbind (parseTL2TypeArgumentDeclaration rt o) (fun localState rt _ =>
-          let st := inherit st localState in
-          er E2_targ_decl rt o (fun e =>
-            let '(okp, localState) := expectProgress localState e in
-            if negb okp then T_ok (inherit st localState) rt tt
-            else templateArgsLoop fuel st rt o body))
-      else
-        ck (ty_chr tk_lCurlyBracket) rt (fun b1 rt =>
-        let other (k : bool -> iter -> t2 unit) : t2 unit :=
-          if b1 then k true rt else ck2 (ty_chr tk_lRoundBracket) (ty_chr tk_lSquareBracket) rt k in
-        other (fun b rt =>
-          if b then er E2_wrong_brackets rt o (fun e => T_ok (failWith st e) rt tt)
-          else body st rt))) in
+          else templateArgsLoop fuel st rt o (tdBody fuel o tokens)))
+    else
+      let wrong (rt : iter) : t2 unit := er E2_wrong_brackets rt o (fun e => T_ok (failWith st e) rt tt) in
+      ck (ty_chr tk_lCurlyBracket) rt (fun b rt =>
+      if b then wrong rt else
+      ck (ty_chr tk_lRoundBracket) rt (fun b rt =>
+      if b then wrong rt else
+      ck (ty_chr tk_lSquareBracket) rt (fun b rt =>
+      if b then wrong rt else tdBody fuel o tokens st rt)))).
+
+Definition parseTL2TypeDeclarationWithoutName (fuel : nat) (tokens : iter) (o : pos) : t2 unit :=
+  sk tokens (fun rt =>
   ck T_crc32hash rt (fun b rt =>
-    if b then crcPart rt o (mkSt false None) (fun rt => generics (mkSt false None) rt) (fun st rt => T_ok st rt tt)
-    else generics (mkSt false None) rt)).
+    if b then crcPart rt o (mkSt false None) (fun rt => tdGenerics fuel o tokens (mkSt false None) rt) (fun st rt => T_ok st rt tt)
+    else tdGenerics fuel o tokens (mkSt false None) rt)).
 
 (** ** TL2FuncDeclaration (without the name) *)
 Definition parseTL2FuncDeclarationWithoutName (fuel : nat) (tokens : iter) (o : pos) : t2 unit :=
@@ -441,6 +466,11 @@ Definition parseTL2FuncDeclarationWithoutName (fuel : nat) (tokens : iter) (o : 
         (fun st rt => T_ok st rt tt))).
 
 (** ** TL2Combinator := TL2Annotation* (TL2TypeDeclaration | TL2FuncDeclaration) scl; result = state.Error *)
+Definition combTail (o : pos) (st : ostate) (rest : iter) : t2 unit :=
+  ex (ty_chr tk_semiColon) rest (fun b rest =>
+    if negb b then er E2_semicolon rest o (fun e => fr rest (fun _ => T_ok (failWith st e) rest tt))
+    else fr rest (fun _ => T_ok st rest tt)).
+
 Definition parseTL2Combinator (fuel : nat) (it : iter) : t2 unit :=
   sk it (fun rest =>
   fr rest (fun t0 =>
@@ -460,16 +490,12 @@ Definition parseTL2Combinator (fuel : nat) (it : iter) : t2 unit :=
           else
             tbind (parseTL2TypeDeclarationWithoutName fuel rest o) (fun typeDeclState rest _ =>
               let st := inherit st typeDeclState in
-              let tail (st : ostate) (rest : iter) : t2 unit :=
-                ex (ty_chr tk_semiColon) rest (fun b rest =>
-                  if negb b then er E2_semicolon rest o (fun e => fr rest (fun _ => T_ok (failWith st e) rest tt))
-                  else fr rest (fun _ => T_ok st rest tt)) in
               if negb (sp typeDeclState) then
                 tbind (parseTL2FuncDeclarationWithoutName fuel rest o) (fun funcDeclState rest _ =>
                   let st := inherit st funcDeclState in
-                  if sp funcDeclState then tail st rest
-                  else er E2_func_or_type rest o (fun e => tail (failWith st e) rest))
-              else tail st rest)))))
+                  if sp funcDeclState then combTail o st rest
+                  else er E2_func_or_type rest o (fun e => combTail o (failWith st e) rest))
+              else combTail o st rest)))))
       end))).
 
 (** ** ParseTL2File: for !it.expectLazy(eof) { parseTL2Combinator } *)
